@@ -77,8 +77,16 @@ def rule_match(ctx):
                     "does not pop; done futures are skipped but still popped; the reply is parsed with the head request's header form and RESPONSE_TYPE")
     fi = ctx.fn(f"{CONN}._handle_frame")
     c = ctx.cfg(fi)
-    hd = [s for s in c.nodes if s.kind == "stmt" and isinstance(s.ast, ast.Assign) and unparse(s.ast.value) == "self._requests[0]"]
-    hd = ctx.one(hd, "head = self._requests[0]")
+    hd = [s for s in c.nodes if s.kind == "stmt" and isinstance(s.ast, ast.Assign) and unparse(s.ast.value) in ("self._requests[0]", "self._requests.popleft()")]
+    hd = ctx.one(hd, "head = self._requests[0]  (or popleft())")
+    # the head entry must stay in the queue while anything that can still fail runs: close() fails exactly the queued futures
+    pops0 = [n for n in c.calls(attr="popleft") if unparse(n.ast.func.value) == "self._requests"]
+    risky = [n for n in c.nodes if n.kind == "call" and call_attr(n.ast) in ("parse_response_header", "decode")]
+    ctx.anchor(len(risky) >= 2, "parse_response_header / decode calls in _handle_frame")
+    late = [r for r in risky for p0 in pops0 if c.path_exists(p0, r, exc=False)]
+    ctx.ob(R, fi, (pops0[0] if pops0 else fi.node), bool(pops0) and not late,
+           "the head entry is removed from the in-flight queue before the reply has been parsed/decoded: when a malformed frame makes that step raise, "
+           "close() no longer finds the waiter and it stays pending for ever", text="pop-after-decode")
     names = [unparse(x) for x in hd.ast.targets[0].elts] if isinstance(hd.ast.targets[0], ast.Tuple) else []
     ctx.anchor(len(names) == 3, "(correlation_id, request, fut) unpacking of the head entry")
     cid, req, fut = names
